@@ -195,6 +195,11 @@ fn short_loc(loc: &str) -> String {
 fn record_panic(world: &dyn World, op: Option<&Op>, obs: &mut Obs, phase: &str) {
     let (loc, msg) = take_panic();
     let disc = format!("{}:{}", short_loc(&loc), normalise_digits(&msg));
+    if loc.starts_with("src/") {
+        // a panic inside the harness itself is a harness error, never a finding
+        obs.violate("HARNESS", "panic-in-harness", &disc, format!("panic in {} at {}: {}", phase, loc, msg));
+        return;
+    }
     for p in world.panic_props(op) {
         obs.violate(&p, "panic", &disc, format!("panic in {} at {}: {}", phase, loc, msg));
     }
